@@ -195,6 +195,12 @@ static int do_hash_file(const char *file, EVP_MD_CTX *ctx, bool follow,
 		     sizeof(statbuf.st_mtim.tv_sec));
     EVP_DigestUpdate(ctx, &statbuf.st_mtim.tv_nsec,
 		     sizeof(statbuf.st_mtim.tv_nsec));
+    /* unlike mtime, the inode change time cannot be put back by
+       tools that preserve timestamps (cp -p, rsync -t, tar) */
+    EVP_DigestUpdate(ctx, &statbuf.st_ctim.tv_sec,
+		     sizeof(statbuf.st_ctim.tv_sec));
+    EVP_DigestUpdate(ctx, &statbuf.st_ctim.tv_nsec,
+		     sizeof(statbuf.st_ctim.tv_nsec));
 
     if (!follow && (statbuf.st_mode & S_IFMT) == S_IFLNK)
 	return do_hash_file(file, ctx, true, log_ref);
